@@ -66,10 +66,17 @@ def rewait(rng):
     return {"family": "waitdag", "spec": spec, "inputs": {"a": "run:a"}, "kw": {}, "unique_outputs": True, "template": "rewait"}
 
 
+def lateclosed(rng):
+    spec = gen.gen_late_closed_gate(rng)
+    return {"family": "gated", "spec": spec, "inputs": {"s": rng.randrange(spec["table_len"]), "x": "run:x"}, "kw": {}, "unique_outputs": True, "template": "late-closed-gate"}
+
+
 def pick(rng, names):
     n = rng.choice(names)
     if n == "rewait":
         return rewait(rng)
+    if n == "lateclosed":
+        return lateclosed(rng)
     if n == "dag":
         return dag(rng)
     if n == "dag-fallback":
